@@ -112,7 +112,7 @@ def gen(tier, seed):
             calls.append((text, None))
             calls.append((b"x\ny", None))
         else:
-            calls.append((text, rnd.randint(0, len(joined)) if k % 3 == 1 else rnd.randint(4000, len(joined))))
+            calls.append((text, rnd.randint(0, len(joined)) if k % 3 == 1 else rnd.randint(min(4000, len(joined)), len(joined))))
         cases.append(case_line(p, calls))
     # very long lines (around 4096 bytes, the usual buffer size) handed over in every mode, from a line start and mid-line
     for linelen in (4095, 4096, 4097, 9000):
